@@ -942,7 +942,18 @@ class CallsMixin:
                 return [(st, v)]
             raise Unsupported("dict.pop with default")
         if name == "get":
-            raise Unsupported("dict.get")
+            # d.get(k[, default]): two paths, present / absent
+            key = pos[0]
+            dflt = pos[1] if len(pos) > 1 else kw.get("default", NONE)
+            has = st.dict_has(recv, key)
+            out = []
+            s_in = st.copy(); s_in.assume_branch(has) if hasattr(s_in, "assume_branch") else s_in.assume(has)
+            if feasible(s_in.pc):
+                out.append((s_in, s_in.dict_get(recv, key, check=False)))
+            s_out = st.copy(); s_out.assume_branch(z3.Not(has)) if hasattr(s_out, "assume_branch") else s_out.assume(z3.Not(has))
+            if feasible(s_out.pc):
+                out.append((s_out, dflt))
+            return out
         raise Unsupported(f"dict.{name}")
 
     # ------------------------------------------------------------------ construction
